@@ -1,12 +1,14 @@
 (* Properties_C08.v — C08: reductions and accumulations fold exactly the addressed elements, in order.
-   Statements only.  Every statement holds for EVERY rank, all positive extents, EVERY binary
-   operation [f] on EVERY element type [A] (no commutativity / associativity is assumed anywhere,
-   so the ORDER of the fold is part of each equation).
+   Statements only.  Every statement holds for EVERY rank, all positive extents, EVERY source element
+   type [E], EVERY result type [R] (the type the accumulator lives in: the requested dtype, else the
+   source element type), EVERY conversion [cast : E -> R] and EVERY step [f : R -> E -> R]
+   (op followed by the conversion back to R).  No commutativity / associativity is assumed anywhere,
+   so the ORDER of the fold and the TYPE in which it is carried out are part of each equation.
    Model  = Reduce.remove_dims / reduce_at / accumulate_at  (the C++ loops, branch for branch)
    Spec   = Reduce.reduce_shape_spec / reduce_spec / accumulate_spec (NumPy: mask of reduced axes,
             left fold over [a (merge mask i r) | r <- lex_enum (reduced extents)]). *)
 From Coq Require Import Permutation.
-From NM Require Import Base Index IndexProofs Reduce ReduceProofs.
+From NM Require Import Base Index IndexProofs Dtype Reduce ReduceProofs.
 Local Open Scope Z_scope.
 
 (* result shape: for an axis argument NumPy accepts (None, an axis in [-ndim,ndim), or a list of such
@@ -22,19 +24,19 @@ Print Assumptions C08_reduce_shape.
    without it, by the first element — of exactly the source elements whose non-reduced coordinates
    are those of the index, the reduced coordinates running in nested-loop (increasing) order;
    that list is never empty and every source index in it lies inside the source shape *)
-Theorem C08_reduce_elem : forall (A : Type) (f : A -> A -> A) (a : list Z -> A) s ax keepdims init idx,
+Theorem C08_reduce_elem : forall (E R : Type) (cast : E -> R) (f : R -> E -> R) (a : list Z -> E) s ax keepdims init idx,
   pos s -> axes_ok (zlen s) ax = true -> inb idx (reduce_shape_spec s ax keepdims) ->
   let mask := red_mask (length s) ax in
   let i := if keepdims then drop_reduced mask idx else idx in
-  reduce_at f a s ax keepdims init idx = reduce_spec f a s ax keepdims init idx
-  /\ reduce_spec f a s ax keepdims init idx = fold_spec f (spec_elems a mask s i) init
+  reduce_at cast f a s ax keepdims init idx = reduce_spec cast f a s ax keepdims init idx
+  /\ reduce_spec cast f a s ax keepdims init idx = fold_spec cast f (spec_elems a mask s i) init
   /\ spec_elems a mask s i <> []
   /\ (forall r, In r (lex_enum (reduced_extents mask s)) -> inb (merge mask i r) s).
 Proof.
-  intros A f a s ax kd init idx Hp Hok Hi mask i.
-  split; [exact (reduce_at_spec A f a s ax kd init idx Hp Hok (inb_length _ _ Hi))|].
+  intros E R cast f a s ax kd init idx Hp Hok Hi mask i.
+  split; [exact (reduce_at_spec E R cast f a s ax kd init idx Hp Hok (inb_length _ _ Hi))|].
   split; [reflexivity|].
-  split; [exact (spec_elems_nonempty A a mask s i Hp)|].
+  split; [exact (spec_elems_nonempty E a mask s i Hp)|].
   intros r Hr. pose proof (red_mask_length (length s) ax) as Hl.
   apply (in_lex_enum _ (reduced_extents_pos mask s Hp)) in Hr.
   apply merge_inb; [exact Hl | | exact Hr].
@@ -45,15 +47,15 @@ Print Assumptions C08_reduce_elem.
 (* the order and the signs in which the axes are written do not matter: two accepted axis arguments
    naming the same set of axes give the same shape and the same elements; in particular any
    permutation of the normalised axes *)
-Theorem C08_axes_order_and_sign : forall (A : Type) (f : A -> A -> A) (a : list Z -> A) s ax ax' keepdims init idx,
+Theorem C08_axes_order_and_sign : forall (E R : Type) (cast : E -> R) (f : R -> E -> R) (a : list Z -> E) s ax ax' keepdims init idx,
   pos s -> axes_ok (zlen s) ax = true -> axes_ok (zlen s) ax' = true ->
   red_mask (length s) ax = red_mask (length s) ax' ->
   inb idx (reduce_shape_spec s ax keepdims) ->
   remove_dims s ax keepdims = remove_dims s ax' keepdims
-  /\ reduce_at f a s ax keepdims init idx = reduce_at f a s ax' keepdims init idx.
+  /\ reduce_at cast f a s ax keepdims init idx = reduce_at cast f a s ax' keepdims init idx.
 Proof.
-  intros A f a s ax ax' kd init idx Hp H1 H2 Hm Hi.
-  exact (reduce_depends_on_mask A f a s ax ax' kd init idx Hp H1 H2 Hm (inb_length _ _ Hi)).
+  intros E R cast f a s ax ax' kd init idx Hp H1 H2 Hm Hi.
+  exact (reduce_depends_on_mask E R cast f a s ax ax' kd init idx Hp H1 H2 Hm (inb_length _ _ Hi)).
 Qed.
 Print Assumptions C08_axes_order_and_sign.
 
@@ -65,18 +67,18 @@ Print Assumptions C08_axes_permutation_same_mask.
 
 (* reducing over all axes (a duplicate-free list of ndim axes) equals axis = None,
    which folds the whole array in row-major order *)
-Theorem C08_reduce_all_axes_eq_none : forall (A : Type) (f : A -> A -> A) (a : list Z -> A) s l keepdims init idx,
+Theorem C08_reduce_all_axes_eq_none : forall (E R : Type) (cast : E -> R) (f : R -> E -> R) (a : list Z -> E) s l keepdims init idx,
   pos s -> axes_ok (zlen s) (AxList l) = true -> length l = length s ->
   inb idx (reduce_shape_spec s (AxList l) keepdims) ->
   remove_dims s (AxList l) keepdims = remove_dims s AxNone keepdims
-  /\ reduce_at f a s (AxList l) keepdims init idx = reduce_at f a s AxNone keepdims init idx
-  /\ reduce_at f a s AxNone keepdims init idx = fold_spec f (map a (lex_enum s)) init.
+  /\ reduce_at cast f a s (AxList l) keepdims init idx = reduce_at cast f a s AxNone keepdims init idx
+  /\ reduce_at cast f a s AxNone keepdims init idx = fold_spec cast f (map a (lex_enum s)) init.
 Proof.
-  intros A f a s l kd init idx Hp Hok Hl Hi.
+  intros E R cast f a s l kd init idx Hp Hok Hl Hi.
   pose proof (all_axes_mask (length s) l Hok Hl) as Hm.
-  destruct (reduce_depends_on_mask A f a s (AxList l) AxNone kd init idx Hp Hok eq_refl Hm (inb_length _ _ Hi)) as [E1 E2].
+  destruct (reduce_depends_on_mask E R cast f a s (AxList l) AxNone kd init idx Hp Hok eq_refl Hm (inb_length _ _ Hi)) as [E1 E2].
   split; [exact E1|]. split; [exact E2|].
-  rewrite (reduce_at_spec A f a s AxNone kd init idx Hp eq_refl).
+  rewrite (reduce_at_spec E R cast f a s AxNone kd init idx Hp eq_refl).
   - unfold reduce_spec. cbn [red_mask]. now rewrite spec_elems_all.
   - unfold reduce_shape_spec in *. rewrite <- Hm. exact (inb_length _ _ Hi).
 Qed.
@@ -85,32 +87,51 @@ Print Assumptions C08_reduce_all_axes_eq_none.
 (* accumulate along any valid axis, written with either sign (the view wraps a negative axis with
    index::wrap_axis): source shape, element idx = running left fold of a[.., 0..idx_axis, ..]
    (seeded by the first element) *)
-Theorem C08_accumulate : forall (A : Type) (f : A -> A -> A) (a : list Z -> A) s axis idx,
+Theorem C08_accumulate : forall (E R : Type) (cast : E -> R) (f : R -> E -> R) (a : list Z -> E) s axis idx,
   - zlen s <= axis < zlen s -> inb idx s ->
-  accumulate_at f a (zlen s) axis idx = accumulate_spec f a (zlen s) axis idx.
+  accumulate_at cast f a (zlen s) axis idx = accumulate_spec cast f a (zlen s) axis idx.
 Proof. exact accumulate_at_spec. Qed.
 Print Assumptions C08_accumulate.
 
 (* sum / prod / amax / amin are the instances f = +, *, max, min *)
 Theorem C08_sum_prod_amax_amin : forall (a : list Z -> Z) s ax keepdims init idx,
   pos s -> axes_ok (zlen s) ax = true -> inb idx (reduce_shape_spec s ax keepdims) ->
-  reduce_at Z.add a s ax keepdims init idx = reduce_spec Z.add a s ax keepdims init idx
-  /\ reduce_at Z.mul a s ax keepdims init idx = reduce_spec Z.mul a s ax keepdims init idx
-  /\ reduce_at Z.max a s ax keepdims init idx = reduce_spec Z.max a s ax keepdims init idx
-  /\ reduce_at Z.min a s ax keepdims init idx = reduce_spec Z.min a s ax keepdims init idx.
+  reduce_at (fun x => x) Z.add a s ax keepdims init idx = reduce_spec (fun x => x) Z.add a s ax keepdims init idx
+  /\ reduce_at (fun x => x) Z.mul a s ax keepdims init idx = reduce_spec (fun x => x) Z.mul a s ax keepdims init idx
+  /\ reduce_at (fun x => x) Z.max a s ax keepdims init idx = reduce_spec (fun x => x) Z.max a s ax keepdims init idx
+  /\ reduce_at (fun x => x) Z.min a s ax keepdims init idx = reduce_spec (fun x => x) Z.min a s ax keepdims init idx.
 Proof.
   intros a s ax kd init idx Hp Hok Hi. pose proof (inb_length _ _ Hi) as Hl.
   repeat split; apply reduce_at_spec; assumption.
 Qed.
 Print Assumptions C08_sum_prod_amax_amin.
 
+(* the accumulator lives in the RESULT type (requested dtype, else the source element type): with
+   integer-valued data, result type r and a ring operation (+, *, -), converting into r after every
+   step — what reducer_t<result_type> does — equals NumPy's answer: the exact fold over Z of the
+   designated elements (initial included) converted into r once; for reduce and for accumulate *)
+Theorem C08_fold_in_result_type : forall requested e op (a : list Z -> Z) s ax keepdims init idx axis jdx,
+  reduce_dtype requested e <> Bool -> ring_op op -> pos s ->
+  (axes_ok (zlen s) ax = true -> inb idx (reduce_shape_spec s ax keepdims) ->
+     typed_reduce_at requested e op a s ax keepdims init idx = typed_reduce_spec requested e op a s ax keepdims init idx)
+  /\ (- zlen s <= axis < zlen s -> inb jdx s ->
+     typed_accumulate_at requested e op a (zlen s) axis jdx = typed_accumulate_spec requested e op a (zlen s) axis jdx)
+  /\ ring_op Z.add /\ ring_op Z.mul /\ ring_op Z.sub.
+Proof.
+  intros requested e op a s ax kd init idx axis jdx Hb Hop Hp.
+  split; [intros Hok Hi; exact (typed_reduce_at_spec requested e op a s ax kd init idx Hb Hop Hp Hok (inb_length _ _ Hi))|].
+  split; [intros Ha Hj; exact (typed_accumulate_at_spec requested e op a s axis jdx Hb Hop Ha Hj)|].
+  split; [exact ring_add | split; [exact ring_mul | exact ring_sub]].
+Qed.
+Print Assumptions C08_fold_in_result_type.
+
 (* mean / var: the divisor computed by index::mean_divisor on the normalised axis equals the number
    of elements each fold visits *)
-Theorem C08_mean_divisor_counts_folded_elements : forall (A : Type) (a : list Z -> A) s ax nax i,
+Theorem C08_mean_divisor_counts_folded_elements : forall (E : Type) (a : list Z -> E) s ax nax i,
   pos s -> axes_ok (zlen s) ax = true -> normalize ax (zlen s) = Some nax ->
   mean_divisor s nax = Z.of_nat (length (spec_elems a (red_mask (length s) ax) s i)).
 Proof.
-  intros A a s ax nax i Hp Hok Hn.
+  intros E a s ax nax i Hp Hok Hn.
   rewrite (spec_elems_count a _ s i Hp). exact (mean_divisor_spec s ax nax Hok Hn).
 Qed.
 Print Assumptions C08_mean_divisor_counts_folded_elements.
@@ -121,15 +142,24 @@ Definition iota (s : list Z) (i : list Z) : Z := horner 0 i s.
 Example C08_nonvacuous_reduce :
   axes_ok 3 (AxList [-1; 0]) = true /\ inb [0; 2; 0] (reduce_shape_spec [2; 3; 2] (AxList [-1; 0]) true)
   /\ remove_dims [2; 3; 2] (AxList [-1; 0]) true = Some [1; 3; 1]
-  /\ reduce_at Z.sub (iota [2; 3; 2]) [2; 3; 2] (AxList [-1; 0]) true (Some 100) [0; 2; 0] = Some (100 - 4 - 5 - 10 - 11)
-  /\ reduce_at Z.sub (iota [2; 3; 2]) [2; 3; 2] (AxInt 1) false None [1; 1] = Some (7 - 9 - 11).
+  /\ reduce_at (fun x => x) Z.sub (iota [2; 3; 2]) [2; 3; 2] (AxList [-1; 0]) true (Some 100) [0; 2; 0] = Some (100 - 4 - 5 - 10 - 11)
+  /\ reduce_at (fun x => x) Z.sub (iota [2; 3; 2]) [2; 3; 2] (AxInt 1) false None [1; 1] = Some (7 - 9 - 11).
 Proof. repeat split; try reflexivity. repeat constructor; lia. Qed.
 Example C08_nonvacuous_accumulate :
-  accumulate_at Z.sub (iota [2; 3]) 2 1 [1; 2] = Some (3 - 4 - 5)
-  /\ accumulate_at Z.sub (iota [2; 3]) 2 (-1) [1; 2] = Some (3 - 4 - 5)
-  /\ accumulate_spec Z.sub (iota [2; 3]) 2 (-1) [1; 2] = Some (3 - 4 - 5)
-  /\ accumulate_at Z.sub (iota [2; 3]) 2 (-2) [1; 2] = Some (2 - 5).
+  accumulate_at (fun x => x) Z.sub (iota [2; 3]) 2 1 [1; 2] = Some (3 - 4 - 5)
+  /\ accumulate_at (fun x => x) Z.sub (iota [2; 3]) 2 (-1) [1; 2] = Some (3 - 4 - 5)
+  /\ accumulate_spec (fun x => x) Z.sub (iota [2; 3]) 2 (-1) [1; 2] = Some (3 - 4 - 5)
+  /\ accumulate_at (fun x => x) Z.sub (iota [2; 3]) 2 (-2) [1; 2] = Some (2 - 5).
 Proof. repeat split; reflexivity. Qed.
+(* uint8 [200,100,50]: cumsum in int32 is [200,300,350]; without dtype the accumulator is uint8: [200,44,94] *)
+Example C08_nonvacuous_typed :
+  map (fun j => typed_accumulate_at (Some I32) U8 Z.add (fun i => nth (Z.to_nat (hd 0 i)) [200; 100; 50] 0) 1 0 [j]) [0; 1; 2]
+    = [Some 200; Some 300; Some 350]
+  /\ map (fun j => typed_accumulate_at None U8 Z.add (fun i => nth (Z.to_nat (hd 0 i)) [200; 100; 50] 0) 1 0 [j]) [0; 1; 2]
+    = [Some 200; Some 44; Some 94]
+  /\ typed_reduce_at (Some I8) I32 Z.add (fun i => nth (Z.to_nat (hd 0 i)) [100; 100; 100] 0) [3] AxNone false None [] = Some 44
+  /\ reduce_dtype (Some I32) U8 <> Bool.
+Proof. repeat split; try reflexivity. discriminate. Qed.
 Example C08_nonvacuous_all_axes :
   axes_ok 2 (AxList [1; -2]) = true /\ red_mask 2 (AxList [1; -2]) = red_mask 2 AxNone
   /\ mean_divisor [2; 3] (AxList [1; 0]) = 6.
